@@ -182,6 +182,15 @@ def run_real(case, sign_real_bls=False):
         opg = ops[0]
         for o in ops[1:]:
             opg = opg.operation(o.contents[0])
+    if case.get('prior_override') is not None:
+        # an EARLIER call with an explicit per-call override (a private chain with cheaper gas): its own result is the caller's
+        # business and is not judged; the all-defaults call that follows must price gas at the node's default again
+        try:     # on a client of its own: counters handed out by that fill stay in that client's context (C25's business)
+            other = sn.make_client(node, key)
+            build_op(other, case['contents'][0] if case['contents'] else {'kind': 'transaction', 'destination': pkh, 'amount': 1}) \
+                .fill(minimal_nanotez_per_gas_unit=case['prior_override'])
+        except Exception:
+            pass
     try:
         g = opg.fill() if case['mode'] == 'fill' else opg.autofill()
     except ZeroDivisionError:
@@ -297,6 +306,9 @@ def run(ctx):
                 fixed.append({'mode': mode, 'curve': curve, 'hard_gas': 1040000, 'hard_storage': 60000, 'counter': 100, 'pending': 0,
                               'contents': [plain] * n, 'via_bulk': True, 'sims': [{'milligas': 1000000}] * n if mode == 'autofill' else None})
     cases = fixed + cases
+    for i, c in enumerate(cases):
+        if i % 9 == 4:
+            c['prior_override'] = ctx.rng.choice([0, 1, 50, 99, 100, 1000])
     bls_budget = [6 if ctx.tier == 'quick' else 40]
 
     jobs = []
@@ -342,6 +354,8 @@ def run(ctx):
         desc['h'] = hashlib.sha1(repr(case).encode()).hexdigest()[:12]
         ctx.case(desc, nontrivial='error' not in res and n >= 1)
         ctx.count('mode', case['mode'])
+        if case.get('prior_override') is not None:
+            ctx.count('earlier_call_with_gas_price_override', case['prior_override'])
         ctx.count('curve', case['curve'])
         ctx.count('batch_size', 1 if n == 1 else 2 if n == 2 else '3-7' if n < 8 else '8-20' if n <= 20 else '21-50')
         for c in case['contents']:
